@@ -309,20 +309,30 @@ pub fn scenario(idx: usize, seed: u64, reqs_per_task: usize) -> ScenarioResult {
     // capacity probe + isolation: saturate every peer with never-finishing requests
     let mut probe_ok = 0u64;
     if problems.is_empty() {
-        rt.block_on(async {
-            let mut parked = Vec::new();
+        // Decided on logical steps, not on a clock: at this quiescent point every permit has been
+        // returned synchronously, so a request for a free slot enters the wrapped service within its
+        // first polls.  The probe futures are polled by hand (no-op waker) a fixed number of times.
+        // (tokio's cooperative budget - 128 operations per task poll - would make the 129th semaphore
+        // acquisition of this one poll report Pending: the probe runs unconstrained)
+        rt.block_on(tokio::task::unconstrained(async {
+            use std::future::Future;
+            let waker = futures::task::noop_waker();
+            let mut cx = std::task::Context::from_waker(&waker);
+            type Probe = std::pin::Pin<Box<dyn Future<Output = Result<(), anemo::rpc::Status>> + Send>>;
+            let mut parked: Vec<Probe> = Vec::new();
             for p in 0..npeers {
-                for k in 0..limit {
+                for _k in 0..limit {
                     let mut s = svc.clone();
                     let id = next_id.fetch_add(1, Ordering::SeqCst);
-                    parked.push(tokio::spawn(async move { s.ready().await.unwrap().call(req(id, Some(p), "never")).await.map(|_| ()) }));
-                    let _ = k;
+                    let mut f: Probe = Box::pin(async move { s.ready().await.unwrap().call(req(id, Some(p), "never")).await.map(|_| ()) });
+                    for _ in 0..8 {
+                        if f.as_mut().poll(&mut cx).is_ready() {
+                            break;
+                        }
+                    }
+                    parked.push(f);
                 }
-                // all `limit` must get in (full capacity is available again)
-                let deadline = std::time::Instant::now() + Duration::from_secs(10);
-                while sh.gauge[p].load(Ordering::SeqCst) < limit as i64 && std::time::Instant::now() < deadline {
-                    tokio::time::sleep(Duration::from_millis(1)).await;
-                }
+                // all `limit` must be inside (full capacity is available again)
                 let g = sh.gauge[p].load(Ordering::SeqCst);
                 if g != limit as i64 {
                     problems.push(format!("after the history only {g} of {limit} slots of peer {p} can be used (capacity leaked)"));
@@ -331,23 +341,29 @@ pub fn scenario(idx: usize, seed: u64, reqs_per_task: usize) -> ScenarioResult {
                 // one more: refused (ReturnError) or kept waiting (Block)
                 let mut s = svc.clone();
                 let id = next_id.fetch_add(1, Ordering::SeqCst);
-                let extra = tokio::time::timeout(Duration::from_millis(30), async move { s.ready().await.unwrap().call(req(id, Some(p), "ok:0")).await }).await;
-                match (block, extra) {
-                    (false, Ok(Err(s))) if s.status() == StatusCode::TooManyRequests => {}
-                    (true, Err(_)) => {}
+                let mut extra: std::pin::Pin<Box<dyn Future<Output = Result<anemo::Response<Bytes>, anemo::rpc::Status>> + Send>> =
+                    Box::pin(async move { s.ready().await.unwrap().call(req(id, Some(p), "ok:0")).await });
+                let mut out = None;
+                for _ in 0..8 {
+                    if let std::task::Poll::Ready(r) = extra.as_mut().poll(&mut cx) {
+                        out = Some(r);
+                        break;
+                    }
+                }
+                match (block, out) {
+                    (false, Some(Err(s))) if s.status() == StatusCode::TooManyRequests => {}
+                    (true, None) => {}
                     (_, other) => problems.push(format!("request over the limit of saturated peer {p}: {:?}", other.map(|r| r.map(|x| x.status()).map_err(|s| s.status())))),
                 }
+                drop(extra);
                 if sh.gauge[p].load(Ordering::SeqCst) > limit as i64 {
                     problems.push(format!("peer {p} exceeded its limit while saturated"));
                 }
                 probe_ok += 1;
                 // isolation: the next peer still has all of its own slots (checked by the loop)
             }
-            for h in parked {
-                h.abort();
-            }
-            tokio::time::sleep(Duration::from_millis(5)).await;
-        });
+            drop(parked);
+        }));
         problems.extend(sh.over.lock().unwrap().iter().skip(over_before).take(3).cloned());
     }
     drop(rt);
